@@ -195,14 +195,26 @@ def w_op(req, op):
     return "s:" + r_items(items) + fin
 
 
-def run_wsgi(ct, chunks, ops):
+ENV_VARIANTS = ("cl", "nocl", "emptycl", "chunked", "terminated")
+
+
+def run_wsgi(ct, chunks, ops, env="cl"):
     inp = ScriptedInput(chunks)
-    # a real server announces the body length; the code reads wsgi.input to EOF and must not let the
-    # announcement (correct here) or short reads cut the body short
+    # a real server announces the body length (variant `cl`); the code reads wsgi.input to EOF and must not let
+    # the announcement (correct here) or short reads cut the body short.  The other variants are the
+    # presentations of a body whose length the server does not announce: no CONTENT_LENGTH at all, an empty
+    # one, a de-chunked upload (Transfer-Encoding still visible), `wsgi.input_terminated`.
     environ = {"REQUEST_METHOD": "POST", "CONTENT_TYPE": CTS[ct], "wsgi.input": inp,
-               "CONTENT_LENGTH": str(sum(len(c) for c in chunks)),
                "PATH_INFO": "/", "QUERY_STRING": "", "SERVER_NAME": "t", "SERVER_PORT": "80",
                "wsgi.url_scheme": "http"}
+    if env == "cl":
+        environ["CONTENT_LENGTH"] = str(sum(len(c) for c in chunks))
+    elif env == "emptycl":
+        environ["CONTENT_LENGTH"] = ""
+    elif env == "chunked":
+        environ["HTTP_TRANSFER_ENCODING"] = "chunked"
+    elif env == "terminated":
+        environ["wsgi.input_terminated"] = True
     req = wsgi_requests.Request(environ)
     outs = []
     for op in ops:
@@ -421,7 +433,7 @@ def impl(line):
     a = line.split(" ")
     try:
         if a[0] == "c10w":
-            out, _ = run_wsgi(a[1], parse_chunks(a[2]), parse_ops(a[3]))
+            out, _ = run_wsgi(a[1], parse_chunks(a[2]), parse_ops(a[3]), a[4] if len(a) > 4 else "cl")
         else:
             out, _ = stepper().run(a[1], parse_script(a[2]), parse_tasks(a[3]), a[4] if a[4] == "auto" else list(a[4]))
     except Exception as exc:  # noqa  (the adapter must not raise)
@@ -719,7 +731,10 @@ def describe(line):
 
     if a[0] == "c10w":
         return {"interface": "wsgi", "content_type": CTS[a[1]], "wsgi.input pieces": [bytes(c) for c in parse_chunks(a[2])],
-                "accesses": [op(o) for o in parse_ops(a[3])]}
+                "accesses": [op(o) for o in parse_ops(a[3])],
+                "length announcement": {"cl": "CONTENT_LENGTH = total", "nocl": "no CONTENT_LENGTH", "emptycl": "CONTENT_LENGTH = ''",
+                                        "chunked": "no CONTENT_LENGTH, Transfer-Encoding: chunked",
+                                        "terminated": "no CONTENT_LENGTH, wsgi.input_terminated"}[a[4] if len(a) > 4 else "cl"]}
     return {"interface": "asgi", "content_type": CTS[a[1]],
             "messages": [("disconnect" if m["type"] == "http.disconnect" else (m["body"], "more" if m["more_body"] else "final"))
                          for m in parse_script(a[2])],
@@ -839,11 +854,19 @@ def cases(rng, tier):
     for chunks in [enc(b"x" * big), enc(b"x" * big) + "/" + enc(b"8" * 5), enc(b"x" * (big - 3)) + "/" + enc(b"2")]:
         for s in ["b/s1", "s2/b", "s9", "j/b/s1", "s1x70000/b", "s3x40000"]:
             yield "c10w j %s %s" % (chunks, s)
+    # a body whose length the server does not announce (every presentation x short access sequences)
+    for env in ENV_VARIANTS[1:]:
+        for ct, chunks in W_CONFIGS_FULL:
+            for s in seqs(W_ALPHA, 2):
+                yield "c10w %s %s %s %s" % (ct, chunks, s, env)
     for _ in range(60000 if thorough else 4000):
         ct = rng.choice("jjuo")
         chunks = "/".join(enc(rand_bytes(rng, ct)) for _ in range(rng.randrange(0, 5))) or "."
         ops = "/".join(rand_op(rng, True) for _ in range(rng.randrange(1, 7)))
-        yield "c10w %s %s %s" % (ct, chunks, ops)
+        if rng.random() < 0.3:
+            yield "c10w %s %s %s %s" % (ct, chunks, ops, rng.choice(ENV_VARIANTS[1:]))
+        else:
+            yield "c10w %s %s %s" % (ct, chunks, ops)
     # -- ASGI sequential (one task, fair scheduler)
     for script in A_SCRIPTS_FULL:
         for s in seqs(A_ALPHA, 5 if thorough else 4):
